@@ -894,19 +894,26 @@ func (s *session) readDisconnected(oldConn net.Conn, err error) {
 			Debugf("disconnect(%s) when reading: %T %s", s.RemoteAddr().String(), err, errStr)
 		}
 	}
+	// cancel the callCmd that is waiting for a reply
+	cancelPending := func() {
+		s.callCmdMap.Range(func(_, v interface{}) bool {
+			callCmd := v.(*callCmd)
+			callCmd.mu.Lock()
+			if !callCmd.hasReply() && callCmd.stat.OK() {
+				callCmd.cancel(reason)
+			}
+			callCmd.mu.Unlock()
+			return true
+		})
+	}
+	// first the calls, then the handlers: a running handler may be waiting for a call
+	// it issued on this session, which can only end by being cancelled here
+	cancelPending()
 	s.graceCtxWait()
 
 	verifGate("rd.beforeCancel", s)
-	// cancel the callCmd that is waiting for a reply
-	s.callCmdMap.Range(func(_, v interface{}) bool {
-		callCmd := v.(*callCmd)
-		callCmd.mu.Lock()
-		if !callCmd.hasReply() && callCmd.stat.OK() {
-			callCmd.cancel(reason)
-		}
-		callCmd.mu.Unlock()
-		return true
-	})
+	// the calls that the handlers issued meanwhile
+	cancelPending()
 
 	if status == statusActiveClosing {
 		return
